@@ -15,7 +15,10 @@ META_CLASS = {'meta': ['isEnded', 'isExpired', 'isTimedOut', 'onCooldown', 'shou
 
 HIST_CLASS = {'hstep': ['mode', 'cfwd', 'op', 'ck', 'st', 'plan', 'status', 'fwd', 'upauth', 'contacted', 'granted', 'pst', 'idtok', 'autologin', 'ignored'],
               'hafter': ['op', 'lstatus', 'deleted', 'status', 'upauth'], 'hstart': ['mode']}
+HIST_CLASS['lockwait'] = ['handler', 'what', 'status', 'contacted', 'upauth', 'exists']
 HIST_NT = {'hstep': lambda f: f.get('ck') != '0', 'hstart': lambda f: False}
+LOCKWAIT_RULE = (" lockwait driver: a refreshing request (manual refresh, proxied request, forward-auth) waits for the refresh lock held by another replica while the session "
+                 "passes its inactivity timeout / its end / is logged out / nothing happens; after the lock is released the request must judge the re-read session again (no provider contact, no token, 401). ")
 HIST_RULE = ("hist driver: seeded random histories (login, proxied request with forged headers, session info, manual refresh, forward-auth, three logout variants, "
              "cookie/store tampering, provider answers ok/4xx/5xx/garbage, time shifts aimed at cooldown/leeway/expiry/timeout/end) over 135 configurations "
              "(mode x forward-auth x inactivity x ACR x token lifetime); distinct = (mode, op, cookie state, store state, provider plan, status, forwarded, token written, provider contacted, post state); "
@@ -89,7 +92,7 @@ PROPS = {
     'C05': {
         'proofs': ['Ww.Proofs.C05'],
         'gen_sections': [],
-        'drivers': [{'name': 'sched'}, {'name': 'hist'}, {'name': 'cook'}],
+        'drivers': [{'name': 'sched'}, {'name': 'hist'}, {'name': 'cook'}, {'name': 'lockwait'}],
         'reasons': ['C05.'],
         'class_fields': _merge(HIST_CLASS, {'sched': ['store', 'procs', 'crash', 'trace', 'statuses', 'exists'], 'jar': ['after', 'status', 'names', 'sso'], 'setcookie': ['op', 'class', 'clear', 'path', 'domain']}),
         'nontrivial': _merge(HIST_NT, {'sched': lambda f: ',' in f.get('schedule', ''), 'jar': lambda f: f.get('after') != 'callback', 'setcookie': lambda f: False, 'cookieval14': lambda f: False,
@@ -138,11 +141,11 @@ PROPS = {
     'C06': {
         'proofs': ['Ww.Proofs.C06', 'Ww.Proofs.GenTie.C01'],
         'gen_sections': ['Meta', 'pkg/session/data.go', 'Dec/sessionCanRefresh', 'Dec/sessionShouldRefresh', 'Dec/sessionYieldsToken', 'Dec/acrValidate', 'pkg/session/session.go'],
-        'drivers': [{'name': 'hist'}, {'name': 'meta'}],
+        'drivers': [{'name': 'hist'}, {'name': 'meta'}, {'name': 'lockwait'}],
         'reasons': ['C06.'],
         'class_fields': _merge(META_CLASS, HIST_CLASS),
         'nontrivial': _merge({'meta': _meta_nontrivial}, HIST_NT),
-        'rule': HIST_RULE + "meta driver as for C08 (includes Refresh/WithTimeout/NewMetadata mutators).",
+        'rule': HIST_RULE + LOCKWAIT_RULE + "meta driver as for C08 (includes Refresh/WithTimeout/NewMetadata mutators).",
         'level_text': "Proof: Inv (end = creation + max lifetime; timeout = last refresh + inactivity; token never outlives the timeout) is established by login and preserved by every handler step, "
                       "lifted by induction over arbitrary event lists (login/proxy/manual refresh/forward-auth/info/logout/clock movement); accepted => within lifetime and within inactivity timeout; "
                       "ended => 401 on session endpoints; inactive => readable as inactive, not refreshable; provider never contacted for a dead session. Metadata functions regenerated from data.go.",
@@ -282,7 +285,7 @@ PROPS = {
     'C08': {
         'proofs': ['Ww.Proofs.C08', 'Ww.Proofs.C07', 'Ww.Proofs.GenTie.C01'],
         'gen_sections': ['Meta', 'Consts', 'pkg/session/data.go', 'Dec/sessionCanRefresh', 'Dec/sessionShouldRefresh', 'Dec/sessionYieldsToken', 'Dec/acrValidate', 'pkg/session/session.go'],
-        'drivers': [{'name': 'meta'}, {'name': 'hist'}, {'name': 'sched'}],
+        'drivers': [{'name': 'meta'}, {'name': 'hist'}, {'name': 'sched'}, {'name': 'lockwait'}],
         'reasons': ['C08.'],
         'class_fields': _merge(META_CLASS, HIST_CLASS, {'sched': ['store', 'procs', 'crash', 'trace', 'statuses', 'exists']}),
         'nontrivial': _merge({'meta': _meta_nontrivial}, HIST_NT, {'sched': lambda f: ',' in f.get('schedule', '')}),
